@@ -184,7 +184,7 @@ def parseEnvG (j : Json) : G.Env :=
     possible := (jArr j "possible").map fun p => (jNats p "cs", jBool p "ok"),
     neClause := (jArr j "ne").map fun p => ((jChars p "key", jNat p "rank"), jNat p "clause"),
     order := parseOrder j,
-    front := G.solutionFront ((jArr j "front").map fun p =>
+    front := G.solutionFrontNamed ((jArr j "front").map fun p =>
       (jChars p "key", (jArr p "versions").map fun v => (jNat v "rank", parseMeta (jObj v "meta")))) ((jStrs j "released").map String.toList) }
 
 /-- one unconstrained request against [solution (minus released projects), back repository]: which side answers, with which version -/
@@ -445,6 +445,7 @@ def dispatch (op : String) (j : Json) : Json :=
   | "reqfile" => opReqFile j
   | "frontends" => opFrontends j
   | "multi" => opMulti j
+  | "merge-locations" => jsonStrs (Repos.mergeLocations (jStrs j "cmd") (jStrs j "file"))
   | "cache" => opCache j
   | "write-solution" => opWriteSolution j
   | "load-solution" => opLoadSolution j
